@@ -186,13 +186,13 @@ def lattice_rule(ctx, p, K):
             for el in rets[0].value.args[0].elts:
                 if not (isinstance(el, ast.BinOp) and isinstance(el.op, ast.Add)):
                     continue
-                cpart, mpart = (el.left, el.right) if norm_text(el.left) == "centres" else (el.right, el.left)
-                if norm_text(cpart) == "centres" and isinstance(mpart, ast.BinOp) and isinstance(mpart.op, ast.Mult) and "self.flip_array" in (norm_text(mpart.left), norm_text(mpart.right)):
+                cpart, mpart = (el.left, el.right) if norm_text(el.left) in ("centres", "self.centres") else (el.right, el.left)
+                if norm_text(cpart) in ("centres", "self.centres") and isinstance(mpart, ast.BinOp) and isinstance(mpart.op, ast.Mult) and "self.flip_array" in (norm_text(mpart.left), norm_text(mpart.right)):
                     v = _vec2(K, mpart.right if norm_text(mpart.left) == "self.flip_array" else mpart.left, env, S0, tri)
                     if v:
                         offs.append(v)
         cen_local = [norm_text(n.value) for n in tri.body_nodes() if isinstance(n, ast.Assign) and norm_text(n.targets[0]) == "centres"]
-        ok_t = ok_t and cen_local == ["self.centres"] and len(offs) == 3
+        ok_t = ok_t and cen_local in (["self.centres"], []) and len(offs) == 3
         return (sc, off, offs) if (sc and off and ok_c and ok_t) else None
     g = geometry(s, xo, yo)
     ctx.ob(rule, f"{ab.key}:geometry", g is not None, where=ab.lookup("triangles"), node=None, construct=str(g)[:300],
